@@ -5,9 +5,9 @@ import oracles
 
 TABLE = {
     "C01": dict(profiles=["general", "stamp", "defaults", "failures"], want={"fresh", "once"},
-                theorems=["C01_never_built_is_dirty", "C01_failed_is_dirty", "C01_newer_dep_is_dirty"]),
+                theorems=["C01_never_built_is_dirty", "C01_failed_is_dirty", "C01_newer_dep_is_dirty", "C01_moved_on_dep_not_clean"]),
     "C02": dict(profiles=["general", "defaults", "ifcreate", "override", "stamp"], want={"noop", "once", "fresh", "reason"},
-                theorems=["C02_never_built_runs", "C02_failed_runs", "C02_check_no_file_effect"]),
+                theorems=["C02_never_built_runs", "C02_failed_runs", "C02_check_no_file_effect", "C02_moved_on_dep_not_clean"]),
     "C03": dict(profiles=["stamp"], want={"fresh", "once"},
                 theorems=["C03_stamp_unchanged", "C03_stamp_changed", "C03_newer_dep_forwards"]),
     "C05": dict(profiles=["failures"], want={"fail", "once"},
@@ -16,7 +16,7 @@ TABLE = {
     "C11": dict(profiles=["override", "general", "defaults", "override"], want={"user", "fresh"},
                 theorems=["C11_build_protects", "C11_history_protects", "C11_user_write_protected", "C11_user_file_untouched", "C11_check_readonly", "C11_record_only_own_target", "C11_queries_readonly"]),
     "C14": dict(profiles=["ifcreate", "always"], want={"fresh", "once", "noop", "reason"},
-                theorems=["C14_ifcreate_existing_errors", "C14_ifcreate_absent_ok", "C14_always_newer", "C14_newer_dep_is_dirty"]),
+                theorems=["C14_ifcreate_existing_errors", "C14_ifcreate_absent_ok", "C14_always_newer", "C14_newer_dep_is_dirty", "C14_ifcreate_or_always_not_clean"]),
     "C17": dict(profiles=["general", "stamp"], want={"query", "fresh"},
                 theorems=["C17_readonly", "C17_disjoint", "C17_cover", "C17_ood_walk_readonly"]),
 }
